@@ -4,9 +4,12 @@ package main
 
 import (
 	"fmt"
+	"os/exec"
 	"sort"
+	"strconv"
 	"strings"
 	"sync"
+	"time"
 
 	"golang.org/x/tools/go/ssa"
 )
@@ -103,6 +106,10 @@ type Run struct {
 	noSched    int
 	curFrame   *frame
 	watched    map[*value]string
+	pcHard          bool
+	hardScanned     int
+	altModel        map[string]uint64
+	intBlastQueries int
 }
 
 var R *Run // the single active run of this process
@@ -204,14 +211,124 @@ func (r *Run) feasible(c *Term, commit bool) satResult {
 		r.modelHits++
 		return resSat
 	}
+	if r.hardArith(c) {
+		// multiplication / division kernels: bit-blasting stalls, integer encoding decides
+		if res, mdl := r.intBlastCheck(c); res != resUnknown {
+			if res == resSat && commit {
+				r.mdl, r.mdlOK = mdl, true
+			} else if res == resSat {
+				r.altModel = mdl
+			}
+			return res
+		}
+	}
 	res := r.sol.check(c)
 	if res == resUnknown {
+		if res2, mdl := r.intBlastCheck(c); res2 != resUnknown {
+			if res2 == resSat && commit {
+				r.mdl, r.mdlOK = mdl, true
+			} else if res2 == resSat {
+				r.altModel = mdl
+			}
+			return res2
+		}
 		r.event("SOLVER-UNKNOWN on feasibility query (%s)", r.sol.lastErr)
 	}
 	if res == resSat && commit {
 		r.fetchModel()
 	}
 	return res
+}
+
+var hardOps = map[string]bool{"bvsdiv": true, "bvudiv": true, "bvsrem": true, "bvurem": true}
+
+func termHard(t *Term, seen map[*Term]bool) bool {
+	if t == nil {
+		return false
+	}
+	if t.op == "const" || t.op == "var" || seen[t] {
+		return false
+	}
+	seen[t] = true
+	if hardOps[t.op] || (t.op == "bvmul" && t.w >= 32) {
+		return true
+	}
+	for _, a := range t.args {
+		if termHard(a, seen) {
+			return true
+		}
+	}
+	return false
+}
+
+// hardArith reports whether the query (path condition plus c) contains wide
+// multiplication or any division / remainder.
+func (r *Run) hardArith(c *Term) bool {
+	for r.hardScanned < len(r.pc) {
+		if termHard(r.pc[r.hardScanned], map[*Term]bool{}) {
+			r.pcHard = true
+		}
+		r.hardScanned++
+	}
+	return r.pcHard || termHard(c, map[*Term]bool{})
+}
+
+// intBlastCheck decides pc ∧ c with cvc5's integer encoding of bit-vectors
+// (--solve-bv-as-int=sum keeps the mod-2^k semantics) in a one-shot process.
+func (r *Run) intBlastCheck(c *Term) (satResult, map[string]uint64) {
+	var sb strings.Builder
+	sb.WriteString("(set-logic QF_BV)\n")
+	defs := newDefTable()
+	for _, t := range r.pc {
+		emitDefs(t, defs, 0, &sb)
+		fmt.Fprintf(&sb, "(assert %s)\n", t.ref())
+	}
+	if c != nil && !c.isConst() {
+		emitDefs(c, defs, 0, &sb)
+		fmt.Fprintf(&sb, "(assert %s)\n", c.ref())
+	}
+	sb.WriteString("(check-sat)\n")
+	var names []string
+	for _, n := range r.nondets {
+		if _, ok := defs.level[n.Name]; ok {
+			names = append(names, n.Name)
+		}
+	}
+	if len(names) > 0 {
+		sb.WriteString("(get-value (" + strings.Join(names, " ") + "))\n")
+	}
+	t0 := time.Now()
+	cmd := exec.Command("cvc5", "--lang=smt2", "--produce-models", "--solve-bv-as-int=sum", fmt.Sprintf("--tlimit=%d", r.cfg.TimeoutMs*2))
+	cmd.Stdin = strings.NewReader(sb.String())
+	outb, _ := cmd.Output()
+	r.sol.solveTime += time.Since(t0)
+	r.intBlastQueries++
+	out := string(outb)
+	first := strings.TrimSpace(strings.SplitN(out, "\n", 2)[0])
+	switch first {
+	case "unsat":
+		r.sol.nUnsat++
+		return resUnsat, nil
+	case "sat":
+		r.sol.nSat++
+		mdl := map[string]uint64{}
+		for _, m := range valRe.FindAllStringSubmatch(out, -1) {
+			var v uint64
+			switch {
+			case m[2] == "true":
+				v = 1
+			case m[2] == "false":
+				v = 0
+			case strings.HasPrefix(m[2], "#x"):
+				v, _ = strconv.ParseUint(m[2][2:], 16, 64)
+			default:
+				v, _ = strconv.ParseUint(m[2][2:], 2, 64)
+			}
+			mdl[m[1]] = v
+		}
+		return resSat, mdl
+	}
+	return resUnknown, nil
 }
 
 // choose makes an n-way decision; conds[i] is the condition under which
@@ -345,6 +462,22 @@ func (r *Run) model(extra *Term) ([]uint64, bool) {
 		return append([]uint64(nil), r.pinned...), true
 	}
 	if !(r.mdlOK && (extra == nil || r.holdsInModel(extra))) {
+		if extra != nil && r.altModel != nil && extra.eval(r.altModel, map[*Term]uint64{}) == 1 {
+			vec := make([]uint64, len(r.nondets))
+			for i, n := range r.nondets {
+				vec[i] = r.altModel[n.Name]
+			}
+			return vec, true
+		}
+		if r.hardArith(extra) {
+			if res, mdl := r.intBlastCheck(extra); res == resSat {
+				vec := make([]uint64, len(r.nondets))
+				for i, n := range r.nondets {
+					vec[i] = mdl[n.Name]
+				}
+				return vec, true
+			}
+		}
 		if r.sol.check(extra) != resSat {
 			return nil, false
 		}
